@@ -79,7 +79,9 @@ static void* poster_thread(void* a) { sched_set_op("client"); run_ops((int)(intp
 static const char* g_curdesc = "";
 static void on_stuck(const sched_result* r)
 {
-    char key[400]; snprintf(key, sizeof key, "%s:%s", r->deadlock ? "deadlock" : "livelock", r->blocked);
+    char key[400];
+    if (!r->deadlock && !r->livelock) { snprintf(key, sizeof key, "POOL_free-returned-with-%s", r->blocked); v_viol(key, "worker threads still alive after POOL_free returned; program: %s", g_curdesc); v_dump(); return; }
+    snprintf(key, sizeof key, "%s:%s", r->deadlock ? "deadlock" : "livelock", r->blocked);
     v_viol(key, "no runnable thread while some are unfinished (legal POSIX schedule, replayable from the seed); steps=%llu program: %s", (unsigned long long)r->steps, g_curdesc);
     v_dump();
 }
@@ -126,6 +128,14 @@ static void run_case(long idx, long nsched)
     v_sample("program %ld {%s} schedule seed %ld mode=%s depth=%d steps=%llu hash=%016llx", progId, P.desc, idx, mode == SCHED_PCT ? "PCT" : "uniform", depth, (unsigned long long)R.steps, (unsigned long long)R.hash);
 }
 
+static int sched_active_build(void)
+{
+#ifdef SCHED_STRESS
+    return 0;
+#else
+    return 1;
+#endif
+}
 static void on_alarm(int s) { (void)s; char b[64]; int n = snprintf(b, sizeof b, "HANG\t%ld\n", V.cur_case); if (write(1, b, (size_t)n)) {} _exit(77); }
 
 int main(int argc, char** argv)
@@ -134,7 +144,7 @@ int main(int argc, char** argv)
     sched_on_stuck = on_stuck;
     long const nsched = v_opt_long("nsched", 200);
     signal(SIGALRM, on_alarm);
-    for (long i = V.from; i < V.to; i++) { v_case(i); alarm(120); run_case(i, nsched); alarm(0); }
+    for (long i = V.from; i < V.to; i++) { v_case(i); alarm(sched_active_build() ? 120 : 20); run_case(i, nsched); alarm(0); }
     v_stat("distinct_schedules", g_distinct);
     return v_finish();
 }
